@@ -23,7 +23,7 @@ META = {
         "initial moduli: tangent at F = I equals lambda0 1(x)1 + mu0 (1(.)1 + 1(x)1^T) with the documented mu0 (and K0) for NeoHooke, NeoHookeCompressible, LinearElasticLargeStrain and the tensortrax models "
         "neo_hooke, mooney_rivlin, yeoh, third_order_deformation, arruda_boyce, anssari_benam_bucchi, lopez_pamies, alexander, blatz_ko, saint_venant_kirchhoff, van_der_waals (1e-3, documented 1e-4 regularisation)",
     ],
-    "outside": ["jax's AD/XLA", "eigenvalue-based pairs (storakers, extended_tube, ogden), micro-sphere and morph models", "OgdenRoxburgh hand-coded vs tensortrax version"],
+    "outside": ["jax's AD/XLA", "eigenvalue-based pairs (storakers, extended_tube, ogden), micro-sphere and morph models", "OgdenRoxburgh hand-coded vs tensortrax version: both are compared with the documented softening function instead of with each other"],
     "assumptions": ["jax.numpy.trace/det/sqrt/log have the semantics of their NumPy namesakes"],
 }
 
@@ -220,12 +220,64 @@ def case_initial_moduli(ctx, model):
     )
 
 
+def _eta_doc(ctx, W, Wmax, r, m, beta):
+    z = (Wmax - W) / (m + beta * Wmax)
+    if ctx.sym:
+        from symnp.sym import S
+
+        return 1 - S(z).erf() / r
+    import math
+
+    return 1 - math.erf(z) / r
+
+
+def case_ogden_roxburgh(ctx, version, branch):
+    """pseudo-elastic softening: both implementations against the documented softening function
+    eta = 1 - erf((Wmax - W) / (m + beta Wmax)) / r,  stress = eta * base stress, stored Wmax = max(W, Wmax_n)"""
+    import tensortrax as tr
+    from symnp.abstract import AbstractHyperelastic
+
+    r, m, beta = ctx.var("r", 1.5, 5), ctx.var("m", 0.2, 2), ctx.var("beta", 0.05, 1)
+    Wn = ctx.var("Wmax_n", 0, 3)
+    box = {"atom:uf": (-1, 1), "atom:erf": (-1, 1), "atom:exp": (0, 1), "atom:root": (0.2, 3)}
+    if version == "handcoded":
+        base = AbstractHyperelastic(ctx, 3)
+        mat = fem.OgdenRoxburgh(base, r=r, m=m, beta=beta)
+        F = Fvar(ctx, 3, spread=0.3)
+        sv = np.asarray([[[Wn]]], dtype=object if ctx.sym else float)
+        W = np.asarray(base.function([q(F), sv])[0]).reshape(-1)[0]
+        ctx.assume(W > 0)
+        ctx.assume(W < 3)
+        ctx.assume(W < Wn - 0.01 if branch == "unloading" else W > Wn + 0.01)
+        out = mat.gradient([q(F), sv])
+        Pb = np.asarray(base.gradient([q(F), sv])[0])[:, :, 0, 0]
+        Wmax = Wn if branch == "unloading" else W
+        ctx.equal("stress_is_documented_eta_times_base_stress", np.asarray(out[0])[:, :, 0, 0], _eta_doc(ctx, W, Wmax, r, m, beta) * Pb, tol=1e-12, box=box)
+        ctx.equal("stored_state_is_running_maximum", np.asarray(out[-1]).reshape(-1)[0], Wmax)
+    else:
+        mu = ctx.var("mu", 0.5, 2)
+        E = ctx.symmetric("E", 3, -0.2, 0.2)
+        C = E + (np.eye(3, dtype=int) if ctx.sym else np.eye(3))
+        fun = fem.constitution.ogden_roxburgh
+        kw = dict(material=fem.constitution.neo_hooke, r=r, m=m, beta=beta, mu=mu)
+        sv = np.asarray([Wn], dtype=object if ctx.sym else float).reshape(1, 1, 1)
+        W = np.asarray(tr.function(fem.constitution.neo_hooke, wrt=0, ntrax=2)(q(C), mu=mu)).reshape(-1)[0]
+        ctx.assume(W < Wn - 0.01 if branch == "unloading" else W > Wn + 0.01)
+        g = np.asarray(tr.gradient(tr.take(fun, item=0), wrt=0, ntrax=2, sym=True)(q(C), sv, **kw))[:, :, 0, 0]
+        gb = np.asarray(tr.gradient(fem.constitution.neo_hooke, wrt=0, ntrax=2, sym=True)(q(C), mu=mu))[:, :, 0, 0]
+        Wmax = Wn if branch == "unloading" else W
+        ctx.equal("stress_is_documented_eta_times_base_stress", g, _eta_doc(ctx, W, Wmax, r, m, beta) * gb, tol=1e-12, box=box, rtol_replay=1e-8)
+
+
 def cases(tier):
     out = []
     for mname in JAX_PAIRS:
         out.append(("jax_vs_tt", case_jax_vs_tt, {"model": mname}))
     out.append(("neo_hooke_hand_vs_ad", case_neo_hooke_hand_vs_ad, {}))
     out.append(("linear_elastic", case_linear_elastic, {}))
+    for version in ("handcoded", "tensortrax"):
+        for br in ("unloading", "primary"):
+            out.append(("ogden_roxburgh", case_ogden_roxburgh, {"version": version, "branch": br}))
     out.append(("plane", case_plane, {"which": "strain"}))
     out.append(("plane", case_plane, {"which": "stress"}))
     out.append(("orthotropic", case_orthotropic, {}))
